@@ -176,7 +176,7 @@ func H_C06_Ante() {
 	later := []int{0, 2, 5, 6}
 	for i := 0; i < nm; i++ {
 		kind := 0
-		if i == 0 || rt.Thorough() {
+		if i == 0 || (rt.Thorough() && i == 1) {
 			kind = rt.Choose(8)
 		} else {
 			kind = later[rt.Choose(len(later))]
